@@ -12,7 +12,7 @@ from petl.compat import pickle, next, text_type
 
 
 import petl.config as config
-from petl.comparison import comparable_itemgetter
+from petl.comparison import comparable_itemgetter, Comparable
 from petl.util.base import Table, asindices
 
 
@@ -582,7 +582,7 @@ def issorted(table, key=None, reverse=False, strict=False):
         except StopIteration:
             return True  # no data rows
         for curr in it:
-            if not op(curr, prev):
+            if not op(Comparable(curr), Comparable(prev)):
                 return False
             prev = curr
     else:
